@@ -124,12 +124,13 @@ def build_configs(tier, seed):
     # lines: every marked subset of a 3-cell mesh, two numberings, subdomains on every cell subset
     sub3 = {'s%d' % i: s for i, s in enumerate(subsets(3))}
     for mesh in ('line3', 'line3perm'):
-        for mk in subsets(3):
+        # marked sets in every ORDER (the refiner must not assume an ascending array)
+        for mk in [list(c) for r in range(1, 4) for c in itertools.permutations(range(3), r)]:
             add('%s/marked=%s' % (mesh, ''.join(map(str, mk))), mesh=mesh, marked=mk, sub=sub3, bnd={'ends': [0, 3], 'inner': [1]})
     # triangles: every marked subset of the 2-cell mesh (all coordinates symbolic), two numberings
     sub2 = {'s0': [0], 's1': [1], 's01': [0, 1]}
     for pi, pt in enumerate([None, renumbered('tri2', (2, 0, 3, 1))]):
-        for mk in subsets(2):
+        for mk in subsets(2) + [[1, 0]]:
             add('tri2/numbering%d/marked=%s' % (pi, ''.join(map(str, mk))), mesh='tri2', pt=pt, marked=mk, sub=sub2, bnd={'b': [0, 1]})
     # 3-4 cell meshes with G(2)/G(4) to bound the number of paths
     for mk in (subsets(3) if not quick else [[0], [1, 2], [0, 1, 2]]):
